@@ -1,8 +1,9 @@
 SPECIFICATION Spec
 CONSTANTS
-  Component = "obstacle"
+  Component = "dev_horn"
   Precisions = {4}
   NMixed = 0
+  NShards = 1
   DEV_XmlDropsHorn = TRUE
   DEV_ReaderStopsAtFirstUnset = FALSE
 INVARIANT LawImplConforms
